@@ -439,7 +439,8 @@ func renderMsg(sb *strings.Builder, m protoreflect.Message, o ROpts, depth int) 
 	for i := 0; i < fields.Len(); i++ {
 		fd := fields.Get(i)
 		if !m.Has(fd) {
-			if !o.Defaults || (fd.Kind() == Message && !fd.IsList() && !fd.IsMap()) {
+			// (a member with explicit presence - message, proto3 optional, oneof member - would become present)
+			if !o.Defaults || (fd.Kind() == Message && !fd.IsList() && !fd.IsMap()) || fd.HasPresence() {
 				continue
 			}
 		}
@@ -618,6 +619,10 @@ func DiffMsg(want, got protoreflect.Message, path string) string {
 				if !want.Has(fd) {
 					continue
 				}
+			}
+			// members with explicit presence (proto3 optional, oneof members): present-with-zero is not absent
+			if fd.Kind() != Message && fd.HasPresence() && want.Has(fd) != got.Has(gfd) {
+				return fmt.Sprintf("%s: presence is %v, want %v", p, got.Has(gfd), want.Has(fd))
 			}
 			if d := diffSingle(fd, a, b, p); d != "" {
 				return d
